@@ -1,4 +1,5 @@
 //! Bounded stand-in / failing-input search for unit U1 (SlotMap) — NOT a proof.
+//! functions: SlotMap::bijection_from_fresh_to SlotMap::compose SlotMap::compose_fresh SlotMap::compose_partial SlotMap::contains_key SlotMap::from_pairs SlotMap::get SlotMap::identity SlotMap::index SlotMap::insert SlotMap::inverse SlotMap::is_bijection SlotMap::is_empty SlotMap::is_perm SlotMap::keys SlotMap::keys_vec SlotMap::len SlotMap::remove SlotMap::search SlotMap::try_union SlotMap::union SlotMap::values SlotMap::values_vec
 //! Placed into a scratch copy of the crate as `crate::verif_bounded` (never into /repo).
 //! Bound: all maps with at most 3 entries over keys/values $0..$3, arguments over $0..$4.
 use crate::*;
